@@ -16,9 +16,11 @@
 //!  13 client write chunk            14 server write chunk
 //!  15 client mode bits: 1 = shutdown() after the last write (else the writer is dropped),
 //!                       2 = read concurrently with writing (else read after the write half is done)
-//!                       4 = pause between chunks (client)
+//!                       4 = pause between chunks (client),
+//!                       8 = the last chunk is written together with the end of stream
+//!                           (Writer::write_all_from_fin; counts as shutdown ok)
 //!  16 server mode bits: 1 = shutdown() after the last write, 2 = respond while reading (echo style:
-//!                       response written concurrently), 4 = pause between chunks
+//!                       response written concurrently), 4 = pause between chunks, 8 = as for the client
 //!  17 vanish time (us, scenario 1) -- from then on every datagram is lost in both directions
 //!  18 pause (us) used by the mode bits 4
 //!
@@ -305,11 +307,24 @@ struct Side {
     total: u64,
     chunk: usize,
     shutdown: bool,
+    fin_write: bool,
     pause: Duration,
 }
 
+/// the dc writer's "payload and end of stream in one call" API
+trait FinWrite {
+    async fn write_fin(&mut self, data: &[u8]) -> io::Result<usize>;
+}
+
+impl<Sub: s2n_quic_dc::event::Subscriber> FinWrite for s2n_quic_dc::stream::send::application::Writer<Sub> {
+    async fn write_fin(&mut self, data: &[u8]) -> io::Result<usize> {
+        let mut d = data;
+        self.write_all_from_fin(&mut d).await
+    }
+}
+
 /// writes `total` position-keyed bytes of direction `dir` in `chunk` sized writes
-async fn write_half<W: tokio::io::AsyncWrite + Unpin>(mut w: W, s: Side, out: Arc<Mutex<Out>>) {
+async fn write_half<W: tokio::io::AsyncWrite + Unpin + FinWrite>(mut w: W, s: Side, out: Arc<Mutex<Out>>) {
     let d = s.dir as usize;
     {
         let mut o = out.lock().unwrap();
@@ -325,6 +340,20 @@ async fn write_half<W: tokio::io::AsyncWrite + Unpin>(mut w: W, s: Side, out: Ar
         while off < s.total {
             let n = (s.total - off).min(buf.len() as u64) as usize;
             fill(s.seed, s.dir, off, &mut buf[..n]);
+            if s.fin_write && off + n as u64 == s.total {
+                match op(w.write_fin(&buf[..n]), &out, &mut wait).await {
+                    None => return Ok(false),
+                    Some(Ok(_)) => {
+                        // Ok means the whole buffer was taken (the returned count is not used: it
+                        // under-reports when the call had to wait for flow-control credit)
+                        let mut o = out.lock().unwrap();
+                        o.dirs[d].written += n as u64;
+                        o.dirs[d].write_done = true;
+                    }
+                    Some(Err(e)) => return Err(e),
+                }
+                return Ok(true);
+            }
             let mut done = 0;
             while done < n {
                 match op(w.write(&buf[done..n]), &out, &mut wait).await {
@@ -555,6 +584,7 @@ fn run_sim(cfg: Cfg, out: Arc<Mutex<Out>>) -> (u64, [u64; 4]) {
                         total: cfg.req,
                         chunk: cfg.client_chunk,
                         shutdown: cfg.client_mode & 1 != 0,
+                        fin_write: cfg.client_mode & 8 != 0,
                         pause: pause(cfg.client_mode),
                     },
                     out.clone(),
@@ -626,6 +656,7 @@ fn run_sim(cfg: Cfg, out: Arc<Mutex<Out>>) -> (u64, [u64; 4]) {
                                 total: cfg.resp,
                                 chunk: cfg.server_chunk,
                                 shutdown: cfg.server_mode & 1 != 0,
+                                fin_write: cfg.server_mode & 8 != 0,
                                 pause: pause(cfg.server_mode),
                             },
                             out.clone(),
